@@ -933,6 +933,163 @@ def _replace_node(fn, old: ast.AST, new: ast.AST) -> None:
                         return
 
 
+def _fold_forwarders(work: Repo) -> int:
+    """def reformat_text(text, width=88, ...): return _impl(text, width=width, ...)      (a public front)
+       ... _impl(t, width=w, ...) elsewhere in the module   ->   reformat_text(t, width=w, ...)
+    and the same when the front first packs some of its parameters into small records:
+       def reformat_file(path, output, width=88, ...):
+           fmt = _Fmt(width=width, ...); _run(path, output, fmt)
+       ... _run(p, o, f) elsewhere   ->   reformat_file(path=p, output=o, width=f.width, ...)
+    A module-level public function whose whole body forwards its own parameters - each at most once, directly or as fields
+    of freshly built plain records - to one private function of the same module is that function under its public name.
+    Calls of the private function from elsewhere in the module are written as calls of the front (arguments the private
+    function defaults must be defaulted to the same value by the front). The call graph then reads public-to-public, as it
+    did before the implementation was split off; the private function itself is spliced into the front by the inliner."""
+    count = 0
+    for mod in work.modules.values():
+        funcs = {n.name: n for n in mod.tree.body if isinstance(n, ast.FunctionDef)}
+        classes = {n.name: n for n in mod.tree.body if isinstance(n, ast.ClassDef)}
+
+        def plain_record(c: ast.ClassDef) -> list[str] | None:
+            decos = [ast.unparse(d) for d in c.decorator_list]
+            bases = [ast.unparse(b) for b in c.bases]
+            if not (any("dataclass" in d for d in decos) or any(b.endswith("NamedTuple") for b in bases)):
+                return None
+            if any(isinstance(st, ast.FunctionDef) and st.name in ("__init__", "__post_init__", "__new__") for st in c.body):
+                return None
+            return [st.target.id for st in c.body if isinstance(st, ast.AnnAssign) and isinstance(st.target, ast.Name)]
+
+        fronts: dict[str, list] = {}   # private name -> [(front def, fparam -> ("p", pname) | ("r", {field: pname}))]
+        for P in funcs.values():
+            if P.name.startswith("_") or P.decorator_list or P.args.vararg or P.args.kwarg or P.args.posonlyargs:
+                continue
+            body = [st for st in P.body if not (isinstance(st, ast.Expr) and isinstance(st.value, ast.Constant) and isinstance(st.value.value, str))]
+            if not body:
+                continue
+            pparams = [a.arg for a in P.args.args + P.args.kwonlyargs]
+            used: list[str] = []
+            recs: dict[str, dict[str, str]] = {}
+            ok = True
+            for st in body[:-1]:
+                if not (isinstance(st, ast.Assign) and len(st.targets) == 1 and isinstance(st.targets[0], ast.Name) and isinstance(st.value, ast.Call)
+                        and isinstance(st.value.func, ast.Name) and st.value.func.id in classes):
+                    ok = False
+                    break
+                fields = plain_record(classes[st.value.func.id])
+                if fields is None:
+                    ok = False
+                    break
+                fm: dict[str, str] = {}
+                for i, a in enumerate(st.value.args):
+                    if isinstance(a, ast.Name) and a.id in pparams and i < len(fields):
+                        fm[fields[i]] = a.id
+                    else:
+                        ok = False
+                for k in st.value.keywords:
+                    if k.arg and isinstance(k.value, ast.Name) and k.value.id in pparams and k.arg in fields:
+                        fm[k.arg] = k.value.id
+                    else:
+                        ok = False
+                if set(fm) != set(fields):
+                    ok = False
+                used += list(fm.values())
+                recs[st.targets[0].id] = fm
+            if not ok:
+                continue
+            last = body[-1]
+            call = last.value if isinstance(last, (ast.Return, ast.Expr)) else None
+            if not (isinstance(call, ast.Call) and isinstance(call.func, ast.Name) and call.func.id in funcs and call.func.id.startswith("_")):
+                continue
+            F = funcs[call.func.id]
+            if F is P or F.args.vararg or F.args.kwarg or F.decorator_list or any(isinstance(a, ast.Starred) for a in call.args) or any(k.arg is None for k in call.keywords):
+                continue
+            fpos = [a.arg for a in F.args.posonlyargs + F.args.args]
+            fall = fpos + [a.arg for a in F.args.kwonlyargs]
+            bound: dict[str, ast.expr] = {}
+            for i, a in enumerate(call.args):
+                if i >= len(fpos):
+                    ok = False
+                    break
+                bound[fpos[i]] = a
+            for k in call.keywords:
+                if k.arg not in fall or k.arg in bound:
+                    ok = False
+                else:
+                    bound[k.arg] = k.value
+            if not ok:
+                continue
+            mapping: dict[str, tuple] = {}
+            for fp, a in bound.items():
+                if isinstance(a, ast.Name) and a.id in recs:
+                    mapping[fp] = ("r", recs.pop(a.id))
+                elif isinstance(a, ast.Name) and a.id in pparams:
+                    mapping[fp] = ("p", a.id)
+                    used.append(a.id)
+                else:
+                    ok = False
+            if not ok or recs or len(used) != len(set(used)):
+                continue
+            fronts.setdefault(F.name, []).append((P, mapping))
+
+        def default_of(fn: ast.FunctionDef, name: str) -> str | None:
+            pos = fn.args.posonlyargs + fn.args.args
+            d = dict(zip([a.arg for a in pos][len(pos) - len(fn.args.defaults):], fn.args.defaults))
+            for a, dv in zip(fn.args.kwonlyargs, fn.args.kw_defaults):
+                if dv is not None:
+                    d[a.arg] = dv
+            return ast.unparse(d[name]) if name in d else None
+
+        for fname, lst in fronts.items():
+            if len(lst) != 1:
+                continue  # two public names for one implementation: neither is *the* front
+            P, mapping = lst[0]
+            F = funcs[fname]
+            fpos = [a.arg for a in F.args.posonlyargs + F.args.args]
+            fall = fpos + [a.arg for a in F.args.kwonlyargs]
+            for holder in [n for n in ast.walk(mod.tree) if isinstance(n, (ast.FunctionDef, ast.AsyncFunctionDef)) and n is not P and n is not F]:
+                if any(isinstance(x, ast.Name) and x.id == P.name and isinstance(x.ctx, ast.Store) for x in ast.walk(holder)):
+                    continue
+                for c in [x for x in ast.walk(holder) if isinstance(x, ast.Call) and isinstance(x.func, ast.Name) and x.func.id == fname]:
+                    if any(isinstance(a, ast.Starred) for a in c.args) or any(k.arg is None for k in c.keywords) or len(c.args) > len(fpos):
+                        continue
+                    got: dict[str, ast.expr] = {fpos[i]: a for i, a in enumerate(c.args)}
+                    bad = False
+                    for k in c.keywords:
+                        if k.arg not in fall or k.arg in got:
+                            bad = True
+                        else:
+                            got[k.arg] = k.value
+                    kws: list[ast.keyword] = []
+                    for fp in fall:
+                        m = mapping.get(fp)
+                        if fp in got:
+                            if m is None:
+                                bad = True  # the front does not pass this one: it cannot be said through the front
+                            elif m[0] == "p":
+                                kws.append(ast.keyword(arg=m[1], value=got[fp]))
+                            else:
+                                if not isinstance(got[fp], ast.Name):
+                                    bad = True
+                                    continue
+                                for fld, pn in m[1].items():
+                                    kws.append(ast.keyword(arg=pn, value=ast.Attribute(value=ast.Name(id=got[fp].id, ctx=ast.Load()), attr=fld, ctx=ast.Load())))
+                        else:
+                            # defaulted by the implementation: the front must default it to the same value
+                            if m is None:
+                                continue
+                            if m[0] != "p" or default_of(F, fp) is None or default_of(F, fp) != default_of(P, m[1]):
+                                bad = True
+                    if bad:
+                        continue
+                    c.func = ast.copy_location(ast.Name(id=P.name, ctx=ast.Load()), c.func)
+                    c.args = []
+                    c.keywords = [ast.copy_location(k, c) for k in kws]
+                    count += 1
+        if count:
+            ast.fix_missing_locations(mod.tree)
+    return count
+
+
 def _expand_dict_kwargs(fn) -> int:
     """shared = {"width": width, "semantic": semantic}; f(x, **shared)   ->   f(x, width=width, semantic=semantic)
     for a local bound once to a dict literal with constant string keys whose values are names never rebound in the function
@@ -1616,6 +1773,16 @@ def build_inlined_repo(root=None, keep: set[str] | None = None) -> tuple[Repo, d
         if pf.partials:
             pf.visit(fi.node)
             unrolled += pf.count
+    try:
+        folded = _fold_forwarders(work)
+    except Exception:  # noqa: BLE001 - a normalisation that cannot be applied is simply not applied
+        folded = 0
+    if folded:
+        for mod in work.modules.values():
+            ast.fix_missing_locations(mod.tree)
+        work = Repo(root, trees={name: (m.path, m.source, m.tree) for name, m in work.modules.items()})
+        prog = Program(work)
+        unrolled += folded
     c2c = _ClassToClosure(work)
     for fi in list(work.functions.values()):
         if fi.cls is None or fi.name != "__call__":  # (a method body is not a place where closures are made here)
